@@ -3,6 +3,7 @@
      E <hexpayload|-|@N> <cipher> <mac> <zip> <ttl> <auth_uid> <auth_gid> [<euid> <egid>]
          (@N = N bytes generated as (i*131+7) & 0xff)
      D <hexcred> [<euid> <egid>]
+     E! ... / D! ...   the same on a context on which earlier munge_ctx_get/munge_ctx_set calls have failed
    Output per line:
      E <err> <hex cred or -> <hex errstr>
      D <err> <cipher> <mac> <zip> <ttl> <time0> <time1> <uid> <gid> <auth_uid> <auth_gid> <len> <hex payload or -> <hex errstr>
@@ -53,6 +54,15 @@ int main(int argc, char **argv) {
             printf("P %d\n", c13_plan ? c13_plan(line + 2) : -1);
             munge_ctx_destroy(ctx); fflush(stdout);
             continue;
+        }
+        /* "E! ..." / "D! ...": the application has used this context before and one of its earlier calls failed (an unknown
+           option, an over-long realm): a later munge_encode/munge_decode on the same context is judged on its own */
+        if ((line[0] == 'E' || line[0] == 'D') && line[1] == '!') {
+            int dummy = 0; char big[300];
+            (void) munge_ctx_get(ctx, (munge_opt_t) 9999, &dummy);
+            memset(big, 'r', sizeof big - 1); big[sizeof big - 1] = 0;
+            (void) munge_ctx_set(ctx, MUNGE_OPT_REALM, big);
+            memmove(line + 1, line + 2, strlen(line + 2) + 1);
         }
         if (c13_trace_begin && (line[0] == 'E' || line[0] == 'D')) c13_trace_begin();
         if (line[0] == 'E') {
